@@ -25,9 +25,9 @@ Notation varea2 := (varea2 F f0 fadd fmul fsub).
 Notation vol6 := (vol6 F fadd fmul fsub).
 Notation vsum := (vsum F f0 fadd).
 
-Definition two := 1 + 1.
-Definition three := 1 + (1 + 1).
-Definition four := 1 + (1 + (1 + 1)).
+Notation two := (Geom.two F f1 fadd).
+Notation three := (Geom.three F f1 fadd).
+Notation four := (Geom.four F f1 fadd).
 Hypothesis two_nz : two <> 0.
 Hypothesis three_nz : three <> 0.
 
@@ -35,12 +35,12 @@ Lemma fz2 : fz 2 = 1 + (1 + 0). Proof. reflexivity. Qed.
 Lemma fz3 : fz 3 = 1 + (1 + (1 + 0)). Proof. reflexivity. Qed.
 Lemma fz4 : fz 4 = 1 + (1 + (1 + (1 + 0))). Proof. reflexivity. Qed.
 Lemma two_nz' : 1 + (1 + 0) <> 0.
-Proof. intros H. apply two_nz. unfold two. rewrite <- H. ring. Qed.
+Proof. intros H. apply two_nz. unfold Geom.two. rewrite <- H. ring. Qed.
 Lemma three_nz' : 1 + (1 + (1 + 0)) <> 0.
-Proof. intros H. apply three_nz. unfold three. rewrite <- H. ring. Qed.
+Proof. intros H. apply three_nz. unfold Geom.three. rewrite <- H. ring. Qed.
 Lemma four_nz' : 1 + (1 + (1 + (1 + 0))) <> 0.
 Proof.
-  intros H. apply two_nz. unfold two.
+  intros H. apply two_nz. unfold Geom.two.
   assert (E : (1 + 1) * (1 + 1) = 0) by (rewrite <- H; ring).
   transitivity ((1 + 1) * (1 + 1) / (1 + 1)); [field; exact two_nz|]. rewrite E. field. exact two_nz.
 Qed.
@@ -104,13 +104,13 @@ Proof. reflexivity. Qed.
 Section WithPositions.
 (* positions of the vertex indices that occur in a rewrite *)
 Variable pos : Z -> vec.
-Definition area_of (f : list Z) : vec := varea2 (map pos f).
+Notation area_of := (Geom.area_of F f0 fadd fmul fsub pos).
 
 (* triangulate_face on a quad: the two triangles add up to the quad (any four points) *)
 Theorem C13_quad_split_area A B C D :
   vadd (area_of (tf_quad_replace A B C D)) (vsum (map area_of (tf_quad_faces A B C D))) = area_of [A; B; C; D].
 Proof.
-  unfold area_of. cbn [map tf_quad_replace tf_quad_faces Geom.vsum fold_right]. rewrite !varea2_tri, varea2_quad.
+  unfold Geom.area_of. cbn [map tf_quad_replace tf_quad_faces Geom.vsum fold_right]. rewrite !varea2_tri, varea2_quad.
   destruct (pos A) as [[ax ay] az], (pos B) as [[bx by_] bz], (pos C) as [[cx cy] cz], (pos D) as [[dx dy] dz].
   unfold v0. vec_eq; ring.
 Qed.
@@ -122,37 +122,10 @@ Theorem C13_loop_area A B C mAB mBC mCA :
   Forall (fun t => vscale four (area_of t) = area_of [A; B; C]) (loop_tris A B C mAB mBC mCA).
 Proof.
   intros H1 H2 H3. unfold loop_tris. pose proof two_nz'.
-  repeat (apply Forall_cons || apply Forall_nil); unfold area_of; cbn [map]; rewrite ?H1, ?H2, ?H3; unfold loop_mid;
+  repeat (apply Forall_cons || apply Forall_nil); unfold Geom.area_of; cbn [map]; rewrite ?H1, ?H2, ?H3; unfold loop_mid;
     cbn [pdivz padd fieldO]; rewrite !varea2_tri;
     destruct (pos A) as [[ax ay] az], (pos B) as [[bx by_] bz], (pos C) as [[cx cy] cz];
-    unfold four, v0; vec_eq; field; nz.
-Qed.
-
-(* subdivide_triangles_3quads: each of the three quads has a third of the vector area of its parent *)
-Theorem C13_quads_area A B C mAB mBC mCA S :
-  pos mAB = q3_mid FO (pos A) (pos B) -> pos mBC = q3_mid FO (pos B) (pos C) -> pos mCA = q3_mid FO (pos C) (pos A) ->
-  pos S = q3_bary FO [pos A; pos B; pos C] ->
-  Forall (fun q => vscale three (area_of q) = area_of [A; B; C]) (q3_quads A B C mAB mBC mCA S).
-Proof.
-  intros H1 H2 H3 H4. unfold q3_quads. pose proof two_nz'. pose proof three_nz'.
-  repeat (apply Forall_cons || apply Forall_nil); unfold area_of; cbn [map]; rewrite ?H1, ?H2, ?H3, ?H4; unfold q3_mid, q3_bary;
-    rewrite psum3; cbn [pdivz padd fieldO]; rewrite ?varea2_tri, ?varea2_quad;
-    destruct (pos A) as [[ax ay] az], (pos B) as [[bx by_] bz], (pos C) as [[cx cy] cz];
-    unfold three, v0; vec_eq; field; nz.
-Qed.
-
-(* fan of a triangle around its barycentre (split_double_boundary_edges_triangles): three thirds *)
-Theorem C13_fan3_area A B C iV :
-  pos iV = fan_bary FO [pos A; pos B; pos C] 3 ->
-  Forall (fun t => vscale three (area_of t) = area_of [A; B; C])
-         (fan_replace [A; B; C] iV :: fan_faces [A; B; C] 3 iV).
-Proof.
-  intros H. change (fan_replace [A; B; C] iV :: fan_faces [A; B; C] 3 iV) with [[A; B; iV]; [B; C; iV]; [C; A; iV]].
-  pose proof three_nz'.
-  repeat (apply Forall_cons || apply Forall_nil); unfold area_of; cbn [map]; rewrite ?H; unfold fan_bary;
-    rewrite psum3; cbn [pdivz fieldO]; rewrite ?varea2_tri;
-    destruct (pos A) as [[ax ay] az], (pos B) as [[bx by_] bz], (pos C) as [[cx cy] cz];
-    unfold three, v0; vec_eq; field; nz.
+    unfold Geom.four, v0; vec_eq; field; nz.
 Qed.
 
 End WithPositions.
@@ -225,50 +198,4 @@ Proof.
     rewrite cross_anti. apply vadd_0_r.
 Qed.
 
-(* ------------------------------------------------------------------ signed volume *)
-Section Volumes.
-Variable pos : Z -> vec.
-Definition vol_of (c : list Z) : F := vol6l F f0 fadd fmul fsub (map pos c).
-
-(* split_cell_as_fan: the four tetrahedra add up to the cell for ANY apex; around the barycentre each is a quarter *)
-Theorem C13_cell_fan_volume A B C D ib :
-  let cells := cf_replace A B C D ib :: cf_cells A B C D ib in
-  fold_right fadd 0 (map vol_of cells) = vol_of [A; B; C; D] /\
-  (pos ib = cf_bary FO (pos A) (pos B) (pos C) (pos D) ->
-   Forall (fun c => four * vol_of c = vol_of [A; B; C; D]) cells).
-Proof.
-  cbn zeta. unfold cf_replace, cf_cells, vol_of. cbn [map vol6l fold_right]. split.
-  - destruct (pos A) as [[ax ay] az], (pos B) as [[bx by_] bz], (pos C) as [[cx cy] cz], (pos D) as [[dx dy] dz],
-      (pos ib) as [[ix iy] iz].
-    unfold Geom.vol6, Geom.dot, Geom.cross, Geom.vsub, Geom.vx, Geom.vy, Geom.vz; cbn [fst snd]. ring.
-  - intros Hb. pose proof four_nz'.
-    repeat (apply Forall_cons || apply Forall_nil); cbn [map vol6l]; rewrite ?Hb; unfold cf_bary; cbn [pdivz padd fieldO];
-    destruct (pos A) as [[ax ay] az], (pos B) as [[bx by_] bz], (pos C) as [[cx cy] cz], (pos D) as [[dx dy] dz];
-    unfold four;
-      unfold Geom.vol6, Geom.dot, Geom.cross, Geom.vsub, Geom.vadd, Geom.vdivz, Geom.vx, Geom.vy, Geom.vz; cbn [fst snd];
-      rewrite ?fz4; field; nz.
-Qed.
-
-(* split_tet_from_face_center: in a cell whose face opposite to vertex number iF is split at its barycentre,
-   replacing each of the three face vertices in turn by the centre gives three tetrahedra of a third of the volume *)
-Theorem C13_face_centre_volume v0' v1 v2 v3 ic iF :
-  0 <= iF < 4 ->
-  pos ic = fc_bary FO (map pos (remove_nth [v0'; v1; v2; v3] (Z.to_nat iF))) ->
-  forall cells, fc_new_cells [v0'; v1; v2; v3] (Some iF) ic = Ok cells ->
-  length cells = 3%nat /\ Forall (fun c => three * vol_of c = vol_of [v0'; v1; v2; v3]) cells.
-Proof.
-  intros HiF Hc cells Hcells. pose proof three_nz'.
-  assert (iF = 0 \/ iF = 1 \/ iF = 2 \/ iF = 3)%Z as [-> | [-> | [-> | ->]]] by lia.
-  all: cbv in Hcells; inversion Hcells; subst cells; clear Hcells; (split; [reflexivity|]).
-  all: match type of Hc with context [remove_nth ?l ?n] =>
-         let l' := eval cbv in (remove_nth l n) in change (remove_nth l n) with l' in Hc end.
-  all: cbn [map] in Hc; unfold fc_bary in Hc; rewrite psum3 in Hc; cbn [pdivz fieldO] in Hc.
-  all: repeat (apply Forall_cons || apply Forall_nil); unfold vol_of; cbn [map vol6l]; rewrite ?Hc;
-    destruct (pos v0') as [[ax ay] az], (pos v1) as [[bx by_] bz], (pos v2) as [[cx cy] cz], (pos v3) as [[dx dy] dz];
-    unfold three, v0;
-    unfold Geom.vol6, Geom.dot, Geom.cross, Geom.vsub, Geom.vadd, Geom.vdivz, Geom.vx, Geom.vy, Geom.vz; cbn [fst snd];
-    rewrite ?fz3; field; nz.
-Qed.
-
-End Volumes.
 End Geometry.
